@@ -6,3 +6,4 @@ INVARIANT FixedTotal
 INVARIANT FixedPinned
 INVARIANT FixedCopies
 INVARIANT FixedSymmetric
+INVARIANT RealIsFixed
